@@ -67,4 +67,25 @@ theorem run_exists : ∃ t0 t, init cfg [[]] rootEnv = .ok t0 ∧ exec t0 evs = 
       rw [he] at h
       simp only [digest, Option.some.injEq, Prod.mk.injEq] at h
       exact ⟨t0, t, rfl, he, h.1⟩
+
+/-- … and by a run that returns (`run()` came back): the hypotheses of `C05_metaepochLimit_exact`
+(`MetaepochLimit 2`, final state `done`) are met, and its conclusion is what `accepted` shows -/
+theorem run_done : ∃ t0 t, init cfg [[]] rootEnv = .ok t0 ∧ exec t0 evs = .ok t ∧ t.pc = .done ∧
+    cfg.gsc = .metaepochLimit 2 ∧ t.metaepoch = 2 := by
+  have h := accepted
+  unfold final at h
+  cases hi : init cfg [[]] rootEnv with
+  | error e => rw [hi] at h; simp [Except.bind, digest] at h
+  | ok t0 =>
+    rw [hi] at h
+    simp only [Except.bind] at h
+    cases he : exec t0 evs with
+    | error e => rw [he] at h; simp [digest] at h
+    | ok t =>
+      rw [he] at h
+      simp only [digest, Option.some.injEq, Prod.mk.injEq] at h
+      refine ⟨t0, t, rfl, he, ?_, rfl, h.2.1⟩
+      have hp := h.2.2.2.2.2.2
+      cases hpc : t.pc <;> simp [hpc] at hp
+      rfl
 end Witness
